@@ -10,7 +10,7 @@ from sa.flow import defs_reaching, reaching_defs
 from sa.model import contains, enclosing, execute_impl_funcs, is_user_func_call, superstep_funcs
 from sa.variants import Variant, replace_once, sub_first, sub_once
 
-from .common import call_names, runner_no_raise, template_methods
+from .common import call_names, runner_no_raise, template_methods, vars_from_call
 
 ID = "C11"
 EXPLANATION = (
@@ -310,7 +310,8 @@ def run(ctx) -> None:
             raise AnalysisError(f"{ss.qname}: state writes not recognised")
         if not ss.is_async:
             execs = [n for n in cfg.nodes if any(isinstance(c.func, ast.Name) and c.func.id == "execute_node" for c in cfg.calls_at(n))]
-            cached = [n for n in cfg.nodes if n.kind == "stmt" and isinstance(n.ast, ast.Assign) and isinstance(n.ast.value, ast.Name) and n.ast.value.id == "cached_outputs"]
+            cvars = set(vars_from_call(db, ss, {"check_cache"}, index=1))
+            cached = [n for n in cfg.nodes if n.kind == "stmt" and isinstance(n.ast, ast.Assign) and isinstance(n.ast.value, ast.Name) and n.ast.value.id in cvars]
             loop = [n for n in cfg.nodes if n.kind == "for" and any(contains(s, c) for s in n.ast.body for w in writes for c in [w.ast])]
             if not execs or not loop:
                 raise AnalysisError(f"{ss.qname}: executor call / per-node loop not recognised")
@@ -353,7 +354,8 @@ def run(ctx) -> None:
                     continue
                 ccfg = ctx.cfg(ch, runner_no_raise(db))
                 execs = [n for n in ccfg.nodes if any(isinstance(c.func, ast.Name) and c.func.id == "execute_node" for c in ccfg.calls_at(n))]
-                cached = [n for n in ccfg.nodes if n.kind == "stmt" and isinstance(n.ast, ast.Assign) and isinstance(n.ast.value, ast.Name) and n.ast.value.id == "cached_outputs"]
+                cvars = set(vars_from_call(db, ch, {"check_cache"}, index=1))
+                cached = [n for n in ccfg.nodes if n.kind == "stmt" and isinstance(n.ast, ast.Assign) and isinstance(n.ast.value, ast.Name) and n.ast.value.id in cvars]
 
                 def ef2(a, b, l, i):
                     if a in execs and l != "exc":
